@@ -22,6 +22,10 @@ def run(ctx):
     cfgs = ["MC_AfcShm_c42_thorough.cfg"] if ctx.thorough else ["MC_AfcShm_c42.cfg"]
     (beh, trace), sel = afc_util.shm_check(ctx, vh, "C42", cfgs, None,
                                             actions=[a for a in afc_util.SHM_ACTIONS if a != "e2" or ctx.thorough])
+    if ctx.nviol:
+        # self-tests use the recorded results of this run; with violations present they prove nothing
+        ctx.cov["selftests"] = ["skipped: the run found violations"]
+        return
     # binding self-tests: (a) a history in which add returns a used id must be rejected
     evs = [json.loads(l) for l in open(trace).read().splitlines()]
     ks = [i for i, e in enumerate(evs) if e["ev"] == "ret" and e["th"] == 0 and e["what"] == "add" and e["res"] == "ok"]
